@@ -142,7 +142,7 @@ def columns(tier):
                     out.append([kind, w, list(col)])
     sdom = [None, b'A', b'B', b' ']
     for nb in (1, 2):
-        dom = [None if x is None else x * nb for x in sdom] + ([b'AB'] if nb == 2 else [])
+        dom = [None if x is None else x * nb for x in sdom] + ([b'AB', b'A', b''] if nb == 2 else [])     # incl. shorter than the field
         for n in range(1, nmax + 1):
             for col in itertools.product(dom, repeat=n):
                 out.append(['str', nb * 8, list(col)])
@@ -216,6 +216,41 @@ def run_columns(cases):
 
 
 # ------------------------------------------------------------------------------------------
+def _bothways_judge(descs, nsub, subs, b):
+    port = codec.encode.last_port
+    vals = CC.impl_input_values(subs, port, True)
+    res = {'outcome': S.outcome_class(subs, True), 'bytes': b}
+    dec = {}
+    for comp in (False, True):
+        spec2 = message.Spec(edition=4, descs=descs, nsub=nsub, compressed=comp)
+        try:
+            m = CC.encoder().process(message.flat_json(spec2, vals), wire_template_data=False).serialized_bytes
+        except Exception as e:
+            res['viol'] = ('bothways-encode-raises:%s:%s' % (comp, type(e).__name__), repr(e)[:200])
+            return res
+        st = S.impl_decode(CC.decoder(), m)
+        if st[0] == 'exc':
+            res['viol'] = ('bothways-decode-raises:%s:%s' % (comp, st[1]), st[2][:200])
+            return res
+        dec[comp] = st[1]
+    for si, ((l0, v0, k0), (l1, v1, k1)) in enumerate(zip(dec[False], dec[True])):
+        if l0 != l1:
+            res['viol'] = ('bothways-labels', 'subset %d: labels differ between the two storage forms' % si)
+        elif k0 != k1:
+            res['viol'] = ('bothways-links', 'subset %d: links differ: %r vs %r' % (si, k0, k1))
+        elif len(v0) != len(v1) or any(not same_value(a, b) for a, b in zip(v0, v1)):
+            j = next((j for j, (a, b) in enumerate(zip(v0, v1)) if not same_value(a, b)), -1)
+            res['viol'] = ('bothways-values', 'subset %d item %d (%s): uncompressed %r, compressed %r'
+                           % (si, j, l0[j] if j >= 0 else '?', v0[j] if j >= 0 else None, v1[j] if j >= 0 else None))
+        if 'viol' in res:
+            break
+    if 'viol' not in res:
+        d = S.compare_subsets(dec[True], subs)
+        if d:
+            res['viol'] = ('bothways-vs-reference:' + d[0], d[1])
+    return res
+
+
 def bothways_body(descs, env):
     def body(ctx):
         try:
@@ -224,45 +259,66 @@ def bothways_body(descs, env):
             return {'outcome': ('ref-error',), 'skip': 'ref:' + str(e)[:60]}
         if notes:
             return {'outcome': ('envelope',), 'skip': 'envelope:' + notes[0][:60]}
-        port = codec.encode.last_port
-        vals = CC.impl_input_values(subs, port, True)
-        res = {'outcome': S.outcome_class(subs, True), 'bytes': b}
-        dec = {}
-        for comp in (False, True):
-            spec2 = message.Spec(edition=4, descs=descs, nsub=env['nsub'], compressed=comp)
-            try:
-                m = CC.encoder().process(message.flat_json(spec2, vals), wire_template_data=False).serialized_bytes
-            except Exception as e:
-                res['viol'] = ('bothways-encode-raises:%s:%s' % (comp, type(e).__name__), repr(e)[:200])
-                return res
-            st = S.impl_decode(CC.decoder(), m)
-            if st[0] == 'exc':
-                res['viol'] = ('bothways-decode-raises:%s:%s' % (comp, st[1]), st[2][:200])
-                return res
-            dec[comp] = st[1]
-        for si, ((l0, v0, k0), (l1, v1, k1)) in enumerate(zip(dec[False], dec[True])):
-            if l0 != l1:
-                res['viol'] = ('bothways-labels', 'subset %d: labels differ between the two storage forms' % si)
-            elif k0 != k1:
-                res['viol'] = ('bothways-links', 'subset %d: links differ: %r vs %r' % (si, k0, k1))
-            elif len(v0) != len(v1) or any(not same_value(a, b) for a, b in zip(v0, v1)):
-                j = next((j for j, (a, b) in enumerate(zip(v0, v1)) if not same_value(a, b)), -1)
-                res['viol'] = ('bothways-values', 'subset %d item %d (%s): uncompressed %r, compressed %r'
-                               % (si, j, l0[j] if j >= 0 else '?', v0[j] if j >= 0 else None, v1[j] if j >= 0 else None))
-            if 'viol' in res:
-                break
-        if 'viol' not in res:
-            d = S.compare_subsets(dec[True], subs)
-            if d:
-                res['viol'] = ('bothways-vs-reference:' + d[0], d[1])
-        return res
+        return _bothways_judge(descs, env['nsub'], subs, b)
     return body
 
 
 CC.FACTORIES['bothways'] = bothways_body
 
 
+def bitmap_bothways_body(struct, nsub):
+    """a bitmap structure (mc.gen.bitmaps: base x operator x bitmap source x every bit pattern x follower form; the bitmap
+    is common to all subsets, every field value differs from its neighbours and between subsets) stored both ways"""
+    name, descs, queues, free = struct
+
+    def body(ctx):
+        try:
+            b, spec, subs, notes = S.build_distinct_message(ctx, descs, nsub=nsub, compressed=True, queues=queues, free=free,
+                                                            variant_of_subset=[0] * nsub)
+        except codec.RefError as e:
+            return {'outcome': ('ref-error',), 'skip': 'ref:' + str(e)[:60]}
+        if notes:
+            return {'outcome': ('envelope',), 'skip': 'envelope:' + notes[0][:60]}
+        res = _bothways_judge(descs, nsub, subs, b)
+        res['outcome'] = (tuple(sorted(set(l[:1] for l in subs[0].labels))), len(subs[0].links), nsub)
+        return res
+    return body
+
+
+def run_bitmap_bothways(args):
+    from mc.engine import tree
+    structs, nsub = args
+    p = Partial()
+    st = tree.Stats()
+    for struct in structs:
+        def on_leaf(ctx, res, struct=struct):
+            p.n['exec'] += 1
+            if 'skip' in res:
+                p.n['envelope_skipped'] += 1
+                p.hist[res['skip'][:50]] += 1
+                return
+            p.outcome(res['outcome'])
+            if 'viol' in res:
+                sig, detail = res['viol']
+                parts = struct[0].split('|')
+                cls = '|'.join(x.split('.')[0] + '.' + x.split('.')[1] if '.' in x else x for x in parts[1:])
+                p.violation('%s|%s|%s' % (sig, parts[0], cls), {'struct': list(struct), 'nsub': nsub, 'choices': ctx.vector()},
+                            detail, observed=res.get('bytes'))
+            elif p.n['exec'] % 500 == 1:
+                p.sample({'structure': struct[0], 'descs': struct[1], 'nsub': nsub})
+        tree.explore(bitmap_bothways_body(struct, nsub), 0, on_leaf, st)
+    p.n['nodes'] += st.nodes
+    p.n['edges'] += st.edges
+    return p
+
+
 def replay(part, case):
+    if part.startswith('bothways-bitmap'):
+        from mc.engine import tree
+        s = case['struct']
+        queues = [[tuple(x) for x in q] for q in s[2]]
+        ctx, res = tree.replay(bitmap_bothways_body((s[0], s[1], queues, s[3]), case['nsub']), case['choices'])
+        return [{'sig': res['viol'][0], 'detail': res['viol'][1]}] if 'viol' in res else []
     if part.startswith('bothways'):
         return CC.replay_tree(case)
     outcome, viol = column_case(case)
@@ -305,4 +361,13 @@ def main(tier, seed):
         k = seed % len(shards)
         p = merge_all(run_shards(CC.run_tree, [(s, env, bound, 'bothways') for s in shards[k:] + shards[:k]]))
         rep.add_part(name, p, bounds=dict(pargs, templates=len(pool), deviations=bound, **env))
+
+    from mc.gen import bitmaps as BM
+    for nsub in (2, 3):
+        structs = list(BM.chain1(0 if tier == 'quick' else 1)) + (list(BM.chain2(0)) if nsub == 2 else [])
+        shards = split(structs, 64)
+        k = seed % len(shards)
+        p = merge_all(run_shards(run_bitmap_bothways, [(s, nsub) for s in shards[k:] + shards[:k]]))
+        rep.add_part('bothways-bitmap-%d' % nsub, p, bounds=dict(structures=len(structs), nsub=nsub, deviations=0,
+                                                                   values='every field differs from its neighbours and between subsets'))
     return rep.finish()
